@@ -42,7 +42,7 @@ PROPS['C13'] = dict(
 PROPS['C12'] = dict(
     category='other',
     technique='Kani full-domain loop-free contracts on the constructors / redundancy tests; Verus contracts on the pending-group state machine; Kani text-template harness for the line parser (bounded)',
-    level_text='constructors, clamps, flag codec and redundancy tests proved (Kani, every bit pattern of every argument); pending-group state machine proved (Verus, unbounded); the line parser is a bounded stand-in over listed text templates with nondeterministic numeric results',
+    level_text='constructors, clamps, flag codec and redundancy tests proved (Kani, every bit pattern of every argument); pending-group state machine proved (Verus, unbounded); the line parser is a bounded stand-in over listed text templates with nondeterministic numeric results; bounded twin of flush_pending_points on the real function (any subset of pending slots, empty collection)',
     level_note='assumed: str::parse / dec2flt (digit strings to numbers) is replaced by a nondeterministic value constrained by the proved parse_with_limits contract; text shapes outside the templates are not decided; ordering of the result lists is C13',
     verus=[dict(unit='c12', tier='quick')],
     kani=['support.kc', 'c12_points.kc', 'tp_lines.kc', 'c13.kc'],
@@ -65,7 +65,7 @@ _CURVE_TRUST = COMMON_TRUST + [
 PROPS['C16'] = dict(
     category='other',
     technique='Verus contract on the extracted calculate_length with the float computations abstracted to uninterpreted functions (which value ends up as the total distance, shape of path / lengths: every path length); Kani harnesses on the real calculate_length with a contract-style stand-in for Pos::length for the numeric facts (bounded in the number of path vertices)',
-    level_text='proved (Verus, paths of every length): lengths start at 0 and are never empty; path.len() <= lengths.len() on every exit (the invariant the accessors need), both indexed accesses in range; the path is only truncated, never to nothing; without a requested length one length per vertex and the total is the natural length; with a requested length L the total is EXACTLY L (for L > 0), except: L within EPSILON of the natural length or the stable quirk (last two points equal and L longer) -> natural length kept, single point -> one length; Catmull simplification (unit cat, Catmull polylines of every length, idealised float + and -): surplus_after + |kept polyline| == surplus_before + |full polyline|, the kept polyline starts and ends where the full one does, earlier path vertices stay, no other arm or mode touches the surplus, `sub_path[i - 1]` in range. bounded stand-in: calculate_length on unadjusted paths of 0..3 vertices (4 in the thorough tier), every finite f32 coordinate and every finite requested length > 0: total distance exactly L with the two stated exceptions, lengths start at 0 / never decrease / stay finite, truncation keeps path.len() <= lengths.len()',
+    level_text='proved (Verus, paths of every length): lengths start at 0 and are never empty; path.len() <= lengths.len() on every exit (the invariant the accessors need), both indexed accesses in range; the path is only truncated, never to nothing; without a requested length one length per vertex and the total is the natural length; with a requested length L the total is EXACTLY L (for L > 0), except: L within EPSILON of the natural length or the stable quirk (last two points equal and L longer) -> natural length kept, single point -> one length; Catmull simplification (unit cat, Catmull polylines of every length, idealised float + and -): surplus_after + |kept polyline| == surplus_before + |full polyline|, the kept polyline starts and ends where the full one does, earlier path vertices stay, no other arm or mode touches the surplus, `sub_path[i - 1]` in range. bounded stand-in: calculate_length on unadjusted paths of 0..3 vertices (4 in the thorough tier), every finite f32 coordinate and every finite requested length > 0: total distance exactly L with the two stated exceptions, lengths start at 0 / never decrease / stay finite, truncation keeps path.len() <= lengths.len(); segment join de-duplication of calculate_path on listed linear lists (untyped head; two typed segments): the shared vertex appears once, nothing else is removed',
     level_note='assumed: Euclidean length is finite, >= 0 and 0 for identical points (its numeric value and the geometry of the natural curve are C17, not applicable); the Catmull conservation law (unit cat) is proved over IDEALISED float arithmetic (+ and - exact on the reals, admitted axioms listed in trusted_base) -- float rounding of the surplus is not decided; numeric facts on longer paths not decided',
     verus=[dict(unit='len', tier='quick'), dict(unit='bez', tier='quick'), dict(unit='cat', tier='quick')], kani=['curve.kc'],
     only_prefix=['c16_', 'c18_slider_path_cache'],
@@ -123,7 +123,7 @@ PROPS['C06'] = dict(
 PROPS['C07'] = dict(
     category='other',
     technique='Kani loop-free wiring contracts: each delegating parse_* function is verified against a recording stand-in for its callee (callers are checked against callee interfaces, not bodies); state->value conversions verified field by field over all scalar values',
-    level_text='proved (Kani, loop-free): all 13 delegation steps Beatmap -> HitObjects -> TimingPoints -> General (and -> Editor/Metadata/Colors/Difficulty/Events) call exactly the right inner parser once on exactly the right sub-state with the same line and return its Ok/Err; ignored sections return Ok(()); State->value conversions copy the format version and every scalar field bit-exactly',
+    level_text='proved (Kani, loop-free): all 13 delegation steps Beatmap -> HitObjects -> TimingPoints -> General (and -> Editor/Metadata/Colors/Difficulty/Events) call exactly the right inner parser once on exactly the right sub-state with the same line and return its Ok/Err; ignored sections return Ok(()); State->value conversions copy the format version and every scalar field bit-exactly; bounded (template 1,2,3,1,0, any pending timing group): a hit-object line, accepted or rejected, leaves the timing sub-state alone (no flush, no change, nothing added) -- the TimingPoints decoder ignores those lines',
     level_note='agreement of the nine decoders on every input follows because DecodeBeatmap::decode is one shared default method (no impl overrides decode or should_skip_line: scanned on every run); moved collections: breaks (order preserved) and the background file are checked on a two-break state (bounded), the others only for the empty case; the line is an arbitrary fixed text since the wiring does not inspect it',
     verus=[], kani=['support.kc', 'c07.kc', 'c07_tp.kc', 'tp_lines.kc'],
     only_prefix=['c07_'],
@@ -225,7 +225,7 @@ PROPS['C09'] = dict(
 PROPS['C10'] = dict(
     category='other',
     technique='Kani contracts on the unit-level codecs (BOM table and code-unit pairing proved loop-free over all bytes) and on read_line line splitting per encoding (bounded); known finding D6 keyed by a foreign 0x0A byte',
-    level_text='proved (Verus, byte strings of every length): the lossy UTF-8 loop of Encoding::decode produces EXACTLY what lossy conversion is defined to produce -- the maximal valid prefix, one U+FFFD, then the conversion of what follows the invalid sequence (resuming right after its reported length; nothing further if the input ended inside it) -- in a buffer cleared first; it copies only validated prefixes, slices in range and terminates (functional correctness against the recursive definition, the from_utf8 report of std uninterpreted). proved (Kani, every byte value): BOM table (from_bom) and pairing of bytes into LE / BE code units with the odd tail dropped. Bounded stand-ins: read_line splits a UTF-8 stream at the first LF byte and a UTF-16LE stream after the first LF unit (<= 4 bytes, every schedule); UTF-16 / UTF-8 lossy decoding of single units (thorough tier: CBMC needs long runs for String building)',
+    level_text='proved (Verus, byte strings of every length): the lossy UTF-8 loop of Encoding::decode produces EXACTLY what lossy conversion is defined to produce -- the maximal valid prefix, one U+FFFD, then the conversion of what follows the invalid sequence (resuming right after its reported length; nothing further if the input ended inside it) -- in a buffer cleared first; it copies only validated prefixes, slices in range and terminates (functional correctness against the recursive definition, the from_utf8 report of std uninterpreted). proved (Kani, every byte value): BOM table (from_bom) and pairing of bytes into LE / BE code units with the odd tail dropped. Bounded stand-ins: read_line splits a UTF-8 stream at the first LF byte and a UTF-16LE stream after the first LF unit (<= 4 bytes, every schedule); UTF-16 / UTF-8 lossy decoding of single units (thorough tier: CBMC needs long runs for String building); bounded (every 4-byte line buffer, all three encodings): Decoder::curr_line hands the text decoder exactly the raw bytes of the line and trims only the decoded text',
     level_note='known finding D6: in UTF-16 input any 0x0A byte that belongs to another code unit (e.g. U+4E0A) splits the line (KNOWN-FINDING line, witness harness c10_read_line_utf16_foreign_0a). Equality of whole decoded maps across the four encodings is not decided',
     verus=[dict(unit='enc', tier='quick')], kani=['encoding.kc', 'u16_iter.kc', 'decoder.kc'],
     only_prefix=['enc_', 'u16_', 'c10_'],
